@@ -99,7 +99,7 @@ theorem nodeRel_fenced (src : Bytes) (iA iB : Option Segment) (hi : InfoRel src 
     (hne : ∀ i, iA = some i → i.start < i.stop) :
     NodeRel src false { kind := .fencedCodeBlock, info := iA } { kind := .fencedCodeBlock, info := iB } :=
   ⟨rfl, rfl, rfl, trivial, rfl, rfl, rfl, rfl, rfl, rfl, rfl, hi, .inl ⟨by show (-1 : Int) < 0; decide, rfl⟩,
-    (fun _ l hl => by cases hl), hne, (fun h => absurd h (by show ¬ (0 : Int) ≤ -1; decide))⟩
+    (fun _ l hl => by cases hl), hne, (fun h => absurd h (by show ¬ (0 : Int) ≤ -1; decide)), (fun _ _ => rfl)⟩
 
 /-- the common tail of `fencedOpen`: allocate the node, remember the fence -/
 theorem fencedOpen_tail {src k ls p} {sA sB : St} (h : SR src k ls p sA sB) (iA iB : Option Segment)
